@@ -26,6 +26,23 @@ NOT_APPLICABLE = {
 }
 
 CHECKS = {
+    "C19": {
+        "engine": "c19_documents",
+        "design_ref": "DESIGN.md 4.3",
+        "technique": "deterministic simulation: producer/consumer pipeline over an in-memory file system with seeded write "
+                     "faults (ENOSPC/EIO at byte k, error at close, ENOENT), crash mid-write and restart from durable files, "
+                     "read faults; semantic-digest oracle document-vs-object, object-unchanged and repeated-write oracles; "
+                     "ddmin replay files",
+        "text": "Seeded search over producer/consumer histories: every producer FRAME has (die and allocation writers before "
+                "and after refinement, netgen for each topology and size, the FloorSet converter on synthetic instances, the "
+                "rect and legaliser netlist emitters, the netlist writer as transport) writes 1-4 times through the simulated "
+                "file system or to a string; the matching reader must accept the document and the design read must equal the "
+                "design written on an independent semantic digest, the object must be unchanged, repeated writes identical; "
+                "under write faults the call returns with a good file or raises, and a retry gives the never-faulted document. "
+                "Sampling, not proof.",
+        "note": "Numbers compare exactly. Torn documents after a crash are recorded, not judged. rect solutions and FloorSet "
+                "instances are synthesised (DLL/dataset unavailable offline); the legaliser's model is built, not solved.",
+    },
     "C02": {
         "engine": "c02_c12_refine",
         "design_ref": "DESIGN.md 4.4",
